@@ -13,6 +13,8 @@ for d in sorted(glob.glob(os.path.join(V, "seeded", "*"))):
     cls = [l for l in res.get(meta["property"], {}).get("lines", []) if l.startswith("  class=")]
     c = cls[0].split()[0].replace("class=", "") if cls else ""
     summ = meta["summary"].replace("|", "/")
+    if meta.get("obsolete_since"):
+        summ = "[no longer a defect since " + meta["obsolete_since"].split(":")[0] + ": the property holds with this change on the repaired tree] " + summ
     rows.append("| %s | %s | %s | `%s` | %s |" % (os.path.basename(d), meta["property"], summ[:150] + ("…" if len(summ) > 150 else ""), c, " ".join(row)))
 table = "| id | target | change (abridged) | class reported by the target check | checks |\n|---|---|---|---|---|\n" + "\n".join(rows) + "\n"
 p = os.path.join(V, "DESIGN.md")
@@ -20,5 +22,6 @@ s = open(p).read()
 s2 = re.sub(r"<!-- SEEDED-TABLE-BEGIN -->.*?<!-- SEEDED-TABLE-END -->", "<!-- SEEDED-TABLE-BEGIN -->\n" + table + "<!-- SEEDED-TABLE-END -->", s, flags=re.S)
 open(p, "w").write(s2)
 caught = sum(1 for r in rows if "**X**" in r)
+obs = sum(1 for d in glob.glob(os.path.join(V, "seeded", "*", "meta.json")) if json.load(open(d)).get("obsolete_since"))
 na = sum(1 for d in glob.glob(os.path.join(V, "seeded", "*", "meta.json")) if json.load(open(d))["property"] not in ALL)
-print("%d seeded changes, %d caught by their target check, %d aimed at a property that is not claimed (not applicable)" % (len(rows), caught, na))
+print("%d seeded changes, %d caught by their target check, %d made harmless by a later fix, %d aimed at a property that is not claimed" % (len(rows), caught, obs, na))
